@@ -458,9 +458,45 @@ func ctxPasses(c *core.Ctx, prop string, judge ctxJudge, equal bool, filter func
 		gevals.Add(sub.evals)
 	})
 	r.evals += gevals.Load()
+	// the process environment: the same long conversions with GOMAXPROCS 1, 2, 3 (not a power of two,
+	// fewer than the machine has) and 48 (more than the machine has) — code that splits work by the
+	// number of processors is different code for each of them.  One instantiation of each conversion
+	// function, and every same-type one, at 2^17+5 samples.
+	if !core.Reversed() {
+		var envInsts [][2]int
+		seen := map[string]bool{}
+		for _, sd := range insts {
+			fn := dyn.ConvName(sd[0], sd[1])
+			if sd[0] < dyn.NB && sd[1] < dyn.NB && (sd[0] == sd[1] || !seen[fn]) {
+				if sd[0] != sd[1] {
+					seen[fn] = true
+				}
+				envInsts = append(envInsts, sd)
+			}
+		}
+		g0 := gevals.Load()
+		for _, procs := range envProcs {
+			if c.Expired() {
+				break
+			}
+			c.WithProcs(procs, func() {
+				c.ParallelFor(len(envInsts), func(i int) {
+					sub := &ctxRunner{c: c, prop: prop, judge: judge, equal: true, cap: r.cap}
+					sub.equalOnlyTail = !equal
+					sub.giant(envInsts[i][0], envInsts[i][1], []int{1<<17 + 5}, nil)
+					gevals.Add(sub.evals)
+				})
+			})
+		}
+		c.Set("gomaxprocs_values_for_long_conversions", envProcs)
+		r.evals += gevals.Load() - g0
+	}
 	c.Add("context_pass_evaluations", r.evals)
 	c.Eval(r.evals, 0)
 }
+
+// envProcs are the GOMAXPROCS values the process-environment passes use besides the default.
+var envProcs = []int{1, 2, 3, 48}
 
 // ctxReplay re-executes one recorded context case.
 func ctxReplay(c *core.Ctx, raw json.RawMessage, judge ctxJudge, equal bool) []F {
